@@ -42,12 +42,16 @@ func (p *FunctionBuilder) buildManipulator(
 		return nil, logger.Errorf("%v: cannot use manipulator function %v due to mismatch of returning error", p.fset.Position(m.Pos), ret.FuncName())
 	}
 
-	// The method's operands are the values, the hook's parameters are what they are assigned to.
-	if !types.AssignableTo(util.DerefPtr(dst.Type()), util.DerefPtr(m.DstSide)) {
+	// An operand goes to the hook in the form the parameter can take: as a pointer where a pointer to the
+	// operand's struct is assignable to the parameter (the hook then works on the operand itself), else as
+	// the struct value. The call is emitted with the `&` or `*` this needs.
+	dstAsPtr := types.AssignableTo(types.NewPointer(util.DerefPtr(dst.Type())), m.DstSide)
+	if !dstAsPtr && !types.AssignableTo(util.DerefPtr(dst.Type()), m.DstSide) {
 		return nil, logger.Errorf("%v: manipulator function %v 1st arg type mismatch", p.fset.Position(m.Pos), ret.FuncName())
 	}
 
-	if !types.AssignableTo(util.DerefPtr(src.Type()), util.DerefPtr(m.SrcSide)) {
+	srcAsPtr := types.AssignableTo(types.NewPointer(util.DerefPtr(src.Type())), m.SrcSide)
+	if !srcAsPtr && !types.AssignableTo(util.DerefPtr(src.Type()), m.SrcSide) {
 		return nil, logger.Errorf("%v: manipulator function %v 2nd arg type mismatch", p.fset.Position(m.Pos), ret.FuncName())
 	}
 
@@ -62,8 +66,8 @@ func (p *FunctionBuilder) buildManipulator(
 		}
 		ret.HasAdditionalArgs = true
 	}
-	ret.IsSrcPtr = util.IsPtr(m.SrcSide)
-	ret.IsDstPtr = util.IsPtr(m.DstSide)
+	ret.IsSrcPtr = srcAsPtr
+	ret.IsDstPtr = dstAsPtr
 
 	return ret, nil
 }
